@@ -44,10 +44,10 @@ W_ID32 = "state ids + offset stay below 2^32: memory-bounded assumption (C17.b)"
 TABLE = [
     # ---- scan path
     (r"CompiledDfa::find_from$", "assert:Overflow", 3, AR, W_OFF),
-    (r"CompiledDfa::find_from$", "call:ids::index", 5, ID, W_SID + "; the start state 0 exists because every automaton has at least one state"),
-    (r"CompiledDfa::find_from::\{closure#0\}$", "call:Option::unwrap", 2, TS, "runs only when the terminal id is Some; end and type are written together as Some (C05.a/C05.d) and the start is set before any candidate (C07.a)"),
-    (r"CompiledDfa::pattern$", "call:ids::index", 1, EL, "patterns is a one-element vector; called with 0 (dot export) or inside the message of a failing debug_assert"),
-    (r"CompiledDfa::priority_of$", "call:Option::unwrap", 1, EL, "the argument is an accepting label of this automaton; labels and terminal_ids are filled from the same pattern list and the minimizer copies labels (C02.d, C03.g)"),
+    (r"CompiledDfa::find_from$", "call:index", 5, ID, W_SID + "; the start state 0 exists because every automaton has at least one state"),
+    (r"CompiledDfa::find_from::\{closure#0\}$", "call:unwrap", 2, TS, "runs only when the terminal id is Some; end and type are written together as Some (C05.a/C05.d) and the start is set before any candidate (C07.a)"),
+    (r"CompiledDfa::pattern$", "call:index", 1, EL, "patterns is a one-element vector; called with 0 (dot export) or inside the message of a failing debug_assert"),
+    (r"CompiledDfa::priority_of$", "call:unwrap", 1, EL, "the argument is an accepting label of this automaton; labels and terminal_ids are filled from the same pattern list and the minimizer copies labels (C02.d, C03.g)"),
     (r"FindMatchesImpl::<'h>::advance_beyond_match$", "assert:Overflow", 1, AR, W_OFF),
     (r"FindMatchesImpl::<'h>::advance_char_indices_beyond_match$", "assert:Overflow", 1, AR, W_OFF),
     (r"FindMatchesImpl::<'h>::advance_to$", "assert:Overflow", 4, AR, W_OFF),
@@ -55,67 +55,67 @@ TABLE = [
     (r"FindMatchesImpl::<'h>::merge_line_offsets$", "debug_assert", 1, DBG, "line_offsets stays strictly ascending: search-directed insertion, no duplicates (C09.b)"),
     (r"FindMatchesImpl::<'h>::merge_line_offsets::\{closure#0\}$", "assert:BoundsCheck", 2, EL, "windows(2) yields slices of length 2"),
     (r"FindMatchesImpl::<'h>::next_match$", "assert:Overflow", 1, AR, W_OFF),
-    (r"FindMatchesImpl::<'h>::next_match$", "call:traits::index", 1, PRE, W_SLICE),
+    (r"FindMatchesImpl::<'h>::next_match$", "call:str-index", 1, PRE, W_SLICE),
     (r"FindMatchesImpl::<'h>::offset$", "assert:Overflow", 1, AR, W_OFF),
-    (r"FindMatchesImpl::<'h>::peek_n$", "call:traits::index", 1, PRE, W_SLICE),
+    (r"FindMatchesImpl::<'h>::peek_n$", "call:str-index", 1, PRE, W_SLICE),
     (r"FindMatchesImpl::<'h>::position$", "assert:Overflow", 4, AR, "i + 1 and (offset - line start) + 1 on positions of a haystack; Err(i) has i >= 1 because line_offsets[0] == 0"),
     (r"FindMatchesImpl::<'h>::position$", "call:index", 2, EL, "Ok(i) < len; Err(i) - 1 with i >= 1 because line_offsets[0] == 0 (C09.b)"),
-    (r"FindMatchesImpl::<'h>::set_offset$", "call:traits::index", 3, PRE, W_SLICE),
+    (r"FindMatchesImpl::<'h>::set_offset$", "call:str-index", 3, PRE, W_SLICE),
     (r"ScannerImpl::execute_possible_mode_switch$", "call:index", 1, PRE, W_MODE),
     (r"ScannerImpl::has_transition$", "call:index", 1, PRE, W_MODE),
-    (r"ScannerImpl::peek_from$", "call:index_mut", 1, PRE, W_MODE),
+    (r"ScannerImpl::peek_from$", "call:index", 1, PRE, W_MODE),
     (r"ScannerImpl::peek_from$", "debug_assert", 1, DBG, "matches are never empty: end = index + len_utf8(c) > start (C07.a)"),
     (r"match_type::Match::add_offset$", "assert:Overflow", 2, AR, W_OFF),
     (r"position::Position::new$", "debug_assert", 2, DBG, "line is i+1 or Err(i) >= 1, column is ... + 1"),
     # ---- build path
-    (r"CompiledDfa as std::convert::From<internal::multi_pattern_nfa::MultiPatternNfa>>::from$", "call:Option::expect", 1, EL, "targets of transitions are states of one of the NFAs"),
-    (r"CompiledDfa as std::convert::From<internal::multi_pattern_nfa::MultiPatternNfa>>::from$", "call:Option::unwrap", 1, EL, "every queued set id was inserted into state_map before it was queued"),
-    (r"CompiledDfa as std::convert::From<internal::multi_pattern_nfa::MultiPatternNfa>>::from$", "call:ids::index_mut", 2, ID, "set ids are < state_map.len() == states.len()"),
-    (r"CompiledDfa as std::convert::From<internal::nfa::Nfa>>::from$", "call:Option::unwrap", 1, EL, "every queued set id was inserted into state_map before it was queued"),
-    (r"CompiledDfa as std::convert::From<internal::nfa::Nfa>>::from$", "call:ids::index_mut", 2, ID, "set ids are < state_map.len() == states.len()"),
-    (r"Minimizer::add_representative_state$", "call:Option::unwrap", 1, EL, "groups of a partition are non-empty (C03.b)"),
-    (r"Minimizer::add_representative_state$", "call:ids::index", 2, ID, W_SID),
-    (r"Minimizer::add_representative_state$", "call:ids::index_mut", 2, ID, "group ids are < partition.len() == states.len() of the new automaton"),
-    (r"Minimizer::build_transitions_to_partition_group$", "call:Option::unwrap", 1, EL, "every state is in some group: the partition covers all states (C03.a/b)"),
+    (r"CompiledDfa as std::convert::From<internal::multi_pattern_nfa::MultiPatternNfa>>::from$", "call:unwrap", 1, EL, "targets of transitions are states of one of the NFAs"),
+    (r"CompiledDfa as std::convert::From<internal::multi_pattern_nfa::MultiPatternNfa>>::from$", "call:unwrap", 1, EL, "every queued set id was inserted into state_map before it was queued"),
+    (r"CompiledDfa as std::convert::From<internal::multi_pattern_nfa::MultiPatternNfa>>::from$", "call:index", 2, ID, "set ids are < state_map.len() == states.len()"),
+    (r"CompiledDfa as std::convert::From<internal::nfa::Nfa>>::from$", "call:unwrap", 1, EL, "every queued set id was inserted into state_map before it was queued"),
+    (r"CompiledDfa as std::convert::From<internal::nfa::Nfa>>::from$", "call:index", 2, ID, "set ids are < state_map.len() == states.len()"),
+    (r"Minimizer::add_representative_state$", "call:unwrap", 1, EL, "groups of a partition are non-empty (C03.b)"),
+    (r"Minimizer::add_representative_state$", "call:index", 2, ID, W_SID),
+    (r"Minimizer::add_representative_state$", "call:index", 2, ID, "group ids are < partition.len() == states.len() of the new automaton"),
+    (r"Minimizer::build_transitions_to_partition_group$", "call:unwrap", 1, EL, "every state is in some group: the partition covers all states (C03.a/b)"),
     (r"Minimizer::calculate_initial_partition$", "assert:Overflow", 2, AR, "number of terminals + 1, index + 1"),
-    (r"Minimizer::calculate_initial_partition$", "call:Option::unwrap", 1, EL, "terminal_map holds every accepting label (built from the same end_states)"),
-    (r"Minimizer::calculate_initial_partition$", "call:ids::index", 2, ID, W_SID),
-    (r"Minimizer::calculate_initial_partition$", "call:index_mut", 2, ID, "index + 1 <= number of terminals, vector has number of terminals + 1 groups"),
-    (r"Minimizer::merge_transitions$", "call:Option::unwrap", 1, EL, "group.len() > 1 on this path"),
+    (r"Minimizer::calculate_initial_partition$", "call:unwrap", 1, EL, "terminal_map holds every accepting label (built from the same end_states)"),
+    (r"Minimizer::calculate_initial_partition$", "call:index", 2, ID, W_SID),
+    (r"Minimizer::calculate_initial_partition$", "call:index", 2, ID, "index + 1 <= number of terminals, vector has number of terminals + 1 groups"),
+    (r"Minimizer::merge_transitions$", "call:unwrap", 1, EL, "group.len() > 1 on this path"),
     (r"Minimizer::merge_transitions$", "debug_assert", 1, DBG, "groups of a partition are non-empty (C03.b)"),
-    (r"Minimizer::merge_transitions_of_state$", "call:Option::unwrap", 2, EL, "get_mut(pos) with pos returned by position() on the same vector"),
+    (r"Minimizer::merge_transitions_of_state$", "call:unwrap", 2, EL, "get_mut(pos) with pos returned by position() on the same vector"),
     (r"Minimizer::merge_transitions_of_state$", "call:Vec::remove", 1, EL, "pos returned by position() on the same vector"),
-    (r"Minimizer::merge_transitions_of_state$", "call:index_mut", 1, EL, "rep_pos < pos (the representative is the smallest id of its group and the vector is ordered by id), so the removal does not shift it"),
-    (r"Minimizer::minimize::\{closure#0\}$", "call:Option::unwrap", 3, EL, "get_mut of a key that entry(..).or_default() inserted in the statement before"),
+    (r"Minimizer::merge_transitions_of_state$", "call:index", 1, EL, "rep_pos < pos (the representative is the smallest id of its group and the vector is ordered by id), so the removal does not shift it"),
+    (r"Minimizer::minimize::\{closure#0\}$", "call:unwrap", 3, EL, "get_mut of a key that entry(..).or_default() inserted in the statement before"),
     (r"Minimizer::renumber_states_in_transitions::\{closure#0\}$", "call:panicking::panic_fmt", 1, EL, "every state is in some group: the partition covers all states (C03.a/b)"),
     (r"Minimizer::update_transitions$", "call:index", 1, ID, "renumbered ids are group indices < partition.len() == states.len()"),
-    (r"Minimizer::update_transitions$", "call:index_mut", 1, ID, "renumbered ids are group indices < partition.len() == states.len()"),
+    (r"Minimizer::update_transitions$", "call:index", 1, ID, "renumbered ids are group indices < partition.len() == states.len()"),
     (r"MultiPatternNfa::get_match_transitions$", "call:panicking::panic_fmt", 3, EL, "states of closures were created by try_from_patterns and belong to one of the NFAs"),
     (r"MultiPatternNfa::try_from_patterns$", "assert:Overflow", 1, AR, W_ID32),
-    (r"MultiPatternNfa::try_from_patterns$", "call:Result::unwrap_err", 1, TS, "inside the Err arm of the match on the same result"),
+    (r"MultiPatternNfa::try_from_patterns$", "call:unwrap", 1, TS, "inside the Err arm of the match on the same result"),
     (r"Nfa::add_epsilon_transition$", "assert:Overflow", 1, AR, "sum of two small vector lengths"),
-    (r"Nfa::add_epsilon_transition$", "call:ids::index", 2, ID, "from is a state of this NFA (result of new_state or its start/end)"),
-    (r"Nfa::add_epsilon_transition$", "call:ids::index_mut", 1, ID, "from is a state of this NFA (result of new_state or its start/end)"),
+    (r"Nfa::add_epsilon_transition$", "call:index", 2, ID, "from is a state of this NFA (result of new_state or its start/end)"),
+    (r"Nfa::add_epsilon_transition$", "call:index", 1, ID, "from is a state of this NFA (result of new_state or its start/end)"),
     (r"Nfa::add_epsilon_transition$", "debug_assert", 1, DBG, "Thompson states have at most two out-edges: an end state has none until one builder adds at most two (C02.a)"),
     (r"Nfa::add_transition$", "assert:Overflow", 1, AR, "sum of two small vector lengths"),
-    (r"Nfa::add_transition$", "call:ids::index", 2, ID, "from is the fresh NFA's only state"),
-    (r"Nfa::add_transition$", "call:ids::index_mut", 1, ID, "from is the fresh NFA's only state"),
+    (r"Nfa::add_transition$", "call:index", 2, ID, "from is the fresh NFA's only state"),
+    (r"Nfa::add_transition$", "call:index", 1, ID, "from is the fresh NFA's only state"),
     (r"Nfa::add_transition$", "debug_assert", 1, DBG, "a fresh state gets one transition"),
     (r"Nfa::append$", "debug_assert", 1, DBG, "shift_ids(self.states.len()) keeps id == index (C02.b)"),
     (r"Nfa::epsilon_closure$", "assert:Overflow", 1, AR, "loop counter below a vector length"),
     (r"Nfa::epsilon_closure$", "call:index", 1, EL, "i < closure.len() by the loop condition"),
     (r"Nfa::epsilon_closure$", "call:panicking::panic_fmt", 1, EL, "targets of epsilon transitions are states of this NFA (shift_ids offsets every id, C02.b)"),
-    (r"Nfa::get_match_transitions$", "call:ids::index", 1, ID, "states of a closure are states of this NFA and id == index (C02.b)"),
+    (r"Nfa::get_match_transitions$", "call:index", 1, ID, "states of a closure are states of this NFA and id == index (C02.b)"),
     (r"Nfa::is_empty$", "call:index", 1, EL, "states[0] behind states.len() == 1 (short-circuit &&)"),
     (r"Nfa::shift_ids$", "assert:Overflow", 2, AR, W_ID32),
     (r"NfaState::offset$", "assert:Overflow", 3, AR, W_ID32),
-    (r"ScannerCache::get$", "call:Result::unwrap", 1, EL, "the recursive get after the insert takes the hit branch, which only returns Ok (C13.b/c)"),
-    (r"scanner_builder::ScannerBuilder::build$", "call:Result::unwrap", 1, LOCK, "SCANNER_CACHE.write(): poisoned only by a panic under the guard, i.e. iff this inventory is not clean"),
-    (r"scanner_builder::SimpleScannerBuilder::build$", "call:Result::unwrap", 1, LOCK, "SCANNER_CACHE.write(): poisoned only by a panic under the guard, i.e. iff this inventory is not clean"),
+    (r"ScannerCache::get$", "call:unwrap", 1, EL, "the recursive get after the insert takes the hit branch, which only returns Ok (C13.b/c)"),
+    (r"scanner_builder::ScannerBuilder::build$", "call:unwrap", 1, LOCK, "SCANNER_CACHE.write(): poisoned only by a panic under the guard, i.e. iff this inventory is not clean"),
+    (r"scanner_builder::SimpleScannerBuilder::build$", "call:unwrap", 1, LOCK, "SCANNER_CACHE.write(): poisoned only by a panic under the guard, i.e. iff this inventory is not clean"),
     (r"scanner_mode::ScannerMode::new$", "debug_assert", 1, PRE, "transitions sorted by token type: precondition stated by the property's quantifier and the documentation"),
     (r"scanner_mode::ScannerMode::new::\{closure#1\}$", "assert:BoundsCheck", 2, EL, "windows(2) yields slices of length 2"),
     # ---- dot export
-    (r"ScannerImpl::generate_compiled_automata_as_dot$", "call:Option::unwrap", 1, PRE, "target_folder.to_str(): non-UTF-8 paths only (C18.d lists it)"),
+    (r"ScannerImpl::generate_compiled_automata_as_dot$", "call:unwrap", 1, PRE, "target_folder.to_str(): non-UTF-8 paths only (C18.d lists it)"),
     (r"dot::render_compiled_dfa$", "call:index", 2, ID, "end_states[id] with id in 0..states.len() and end_states.len() == states.len() (every constructor builds both with the same length)"),
 ]
 
@@ -129,7 +129,16 @@ def norm_kind(fn, bb, t):
     if t.get("exp_outer") == "debug_assert!":
         return "debug_assert"
     if PANIC_CALL.search(n) or PANIC_CALL.search(r):
-        return "call:" + M.short_name(r or n)
+        k = "call:" + M.short_name(r or n)
+        # classes of equivalent sites (swapping position().unwrap() for binary_search().unwrap(), or an
+        # id-typed index for a usize index, does not change what has to be justified)
+        if re.search(r"(Option|Result)::(unwrap|expect|unwrap_err|expect_err)$", k):
+            return "call:unwrap"
+        if re.search(r"call:(ids::)?index(_mut)?$", k):
+            return "call:index"
+        if k == "call:" + "traits::index":
+            return "call:str-index"
+        return k
     return None
 
 
